@@ -625,7 +625,17 @@ func rhsShape(e ast.Expr) string {
 		case strings.HasSuffix(fn, "slices.Clone"):
 			return "clone:" + sourceField(t.Args)
 		case strings.HasPrefix(fn, "new"):
-			return "new:" + fn
+			// arguments that hand a field of the original itself to the
+			// constructor (s.random, ...): the new object then shares it
+			sh := "new:" + fn
+			for _, a := range t.Args {
+				if sel, ok := a.(*ast.SelectorExpr); ok {
+					if id, ok := sel.X.(*ast.Ident); ok && id.Name == "s" {
+						sh += "(alias:" + exprName(sel) + ")"
+					}
+				}
+			}
+			return sh
 		}
 		return "call:" + fn
 	case *ast.Ident:
